@@ -27,8 +27,9 @@ CONFIG_FIELDS = ["log_level", "network", "rpc_url", "rpc_user", "rpc_password", 
 DEFAULTS = {"log_level": "error", "network": "mainnet", "rpc_url": "", "rpc_user": "", "rpc_password": "", "rpc_datadir": "",
             "input_format": "hex", "output_format": "hex"}
 VALUES = {"log_level": ["debug", "info", "warning"], "network": ["testnet", "regtest", "mainnet"], "input_format": ["raw", "bin", "hex"],
-          "output_format": ["raw", "bin", "hex"], "rpc_url": ["http://a:1", "http://b:2", "http://c:3"], "rpc_user": ["ua", "ub", "uc"],
-          "rpc_password": ["pa", "pb", "pc"], "rpc_datadir": ["/da", "/db", "/dc"]}
+          "output_format": ["raw", "bin", "hex"], "rpc_url": ["http://a:1", "http://B.example:2/Wallet/W1", "http://c:3"], "rpc_user": ["ua", "User B", "uc"],
+          # free-text options are case-sensitive and may hold spaces, '#', '=', quotes' neighbours and non-ASCII: the value in effect is the value given
+          "rpc_password": ["pa", "pB#=x Y", "P\u00e4ss"], "rpc_datadir": ["/da", "/Data Dir/B", "/dc"]}
 KEY32 = bytes.fromhex("3a0a3ff6ae19d221c7ddfd3157d83ff9bc25fa28911e682f95fe5d0ac657ff3c")
 MNEMONIC = "abandon abandon abandon abandon abandon abandon abandon abandon abandon abandon abandon about"
 
